@@ -450,3 +450,19 @@ func ChanClosed(ch chan struct{}) bool {
 		return false
 	}
 }
+
+// RepoRoot is the root of the repository under test (natively: walk up from the test's working
+// directory to go.mod; the interpreter returns the loaded tree's root).
+func RepoRoot() string {
+	dir, err := os.Getwd()
+	if err != nil {
+		return "."
+	}
+	for i := 0; i < 12; i++ {
+		if _, err := os.Stat(dir + "/go.mod"); err == nil {
+			return dir
+		}
+		dir = dir + "/.."
+	}
+	return "."
+}
